@@ -67,6 +67,54 @@ def attr_specs_check(violations):
     return n
 
 
+def real_world_one(ninst, per, nsrc, evenly, maxc, sd):
+    """the helpers on a real World with real Entity objects: the destinations are entities of SEVERAL instances of one SimConfig
+    entry, so their entity ids coincide (Bus-0.e, Bus-1.e, ...) and only the simulator instance tells them apart"""
+    import mosaik
+    w = mosaik.World({'Bus': {'python': 'harness.simlib:GSim'}, 'Gen': {'python': 'harness.simlib:GSim'}}, skip_greetings=True)
+    try:
+        dests = []
+        for _ in range(ninst): dests += w.start('Bus').M.create(per)
+        srcs = w.start('Gen').M.create(nsrc)
+        made = []; orig = w.connect
+        def rec(s_, d_, *a, **k):
+            made.append((s_.full_id, d_.full_id)); return orig(s_, d_, *a, **k)
+        w.connect = rec
+        random.seed(sd)
+        kw = {} if maxc is None else {'max_connects': maxc}
+        try:
+            res = util.connect_randomly(w, list(srcs), list(dests), ('po', 'i'), evenly=evenly, **kw)
+        except BaseException as e:
+            return [f'the call failed with {type(e).__name__}: {e}']
+        bad = []
+        if [a for a, _ in made] != [e.full_id for e in srcs]: bad.append(f'not every source connected exactly once (in order): {made}')
+        cnt = collections.Counter(b for _, b in made)
+        if evenly:
+            full = [cnt.get(e.full_id, 0) for e in dests]
+            if max(full) - min(full) > 1: bad.append(f'evenly: per-destination counts differ by more than one: {dict(cnt)}')
+        elif maxc is not None and any(v > maxc for v in cnt.values()): bad.append(f'a destination received more than max_connects={maxc}: {dict(cnt)}')
+        got = sorted(e.full_id for e in res)
+        if got != sorted(cnt): bad.append(f'returned set {got} != connected destinations {sorted(cnt)}')
+        return bad
+    finally:
+        w.shutdown()
+
+
+REAL_WORLD = [(2, 2, 4, True, None), (3, 1, 7, True, None), (2, 3, 3, True, None), (2, 2, 6, False, 2), (2, 2, 4, False, None), (3, 2, 9, False, 2), (2, 1, 2, False, 1)]
+
+
+def real_world_family(violations, seed):
+    n = 0
+    for (ninst, per, nsrc, evenly, maxc) in REAL_WORLD:
+        for sd in range(3):
+            n += 1
+            bad = real_world_one(ninst, per, nsrc, evenly, maxc, seed * 100 + sd)
+            if bad:
+                violations.append(dict(kind='real_world', instances=ninst, per_instance=per, nsrc=nsrc, evenly=evenly, max_connects=maxc, seed=seed * 100 + sd, observed=bad[:2]))
+                return n
+    return n
+
+
 def call(nsrc, ndest, evenly, maxc, seed):
     rec = Recorder(seed); w = FakeWorld()
     src = list(range(100, 100 + nsrc)); dest = list(range(200, 200 + ndest))
@@ -140,6 +188,7 @@ def run(out, info, tier, seed):
         if w.conns != [(s, 999) for s in range(100, 100 + nsrc)]:
             violations.append(dict(kind='bulk', helper='connect_many_to_one', nsrc=nsrc, observed=[str(w.conns)]))
     n += attr_specs_check(violations)
+    n += real_world_family(violations, seed)
     mism = []
     if info.driver_ok:
         got = common.batch_model(reqs)
@@ -154,7 +203,7 @@ def run(out, info, tier, seed):
     out.coverage = {'evaluations': n, 'distinct_nontrivial': nontriv, 'traces_validated_against_impl': len(reqs) if info.driver_ok else 0,
                     'rule': f'source sizes 0..7 x destination sizes 1..6 x (evenly | uneven with max_connects in {{inf, 1, 2, 3}}) x {nseeds} seeds, random choices recorded and replayed on the model; '
                             'every helper also called with six attribute specifications (plain names, pairs, one source attribute fanned out to two destination attributes) - each connection must carry exactly the requested pairs; '
-                            'non-trivial = at least two sources and two destinations',
+                            'connect_randomly on a real World whose destinations are entities of two or three instances of one SimConfig entry (coinciding entity ids); non-trivial = at least two sources and two destinations',
                     'samples': [descs[50], {'request': reqs[50], 'implementation': impls[50]}], 'monitor_failures': len(violations), 'correspondence_mismatches': len(mism)}
 
 
@@ -164,6 +213,11 @@ def replay(path, out):
         v = []; attr_specs_check(v); [print(x['helper'], x['attrs'], x['observed']) for x in v]
         if v: print(f'VIOLATION property=C18 replay={path}')
         return 1 if v else 0
+    if r.get('kind') == 'real_world':
+        fails = real_world_one(r['instances'], r['per_instance'], r['nsrc'], r['evenly'], r['max_connects'], r['seed'])
+        [print('monitor:', f) for f in fails]
+        if fails: print(f'VIOLATION property=C18 replay={path}')
+        return 1 if fails else 0
     if r.get('kind') != 'bulk' or 'seed' not in r:
         print(json.dumps(r, indent=1)[:2000]); print('re-run ./check C18'); return 1
     src, dest, conns, res, o, rec = call(r['nsrc'], r['ndest'], r['evenly'], r['max_connects'], r['seed'])
